@@ -161,6 +161,20 @@ def variants(spec: dict) -> list:
     kw = dict(spec.get("maze_ctor_kwargs", {}))
     kw["__extra__"] = 1
     v("maze_ctor_kwargs", maze_ctor_kwargs=kw)
+    # the same number as another type is another generator argument (a float is a proportion, an int a count)
+    kw2 = dict(spec.get("maze_ctor_kwargs", {}))
+    for k in sorted(kw2):
+        val = kw2[k]
+        if isinstance(val, bool) or not isinstance(val, (int, float)):
+            continue
+        if isinstance(val, float) and val == int(val):
+            kw2[k] = int(val)
+            v("maze_ctor_kwargs-retyped", maze_ctor_kwargs=kw2)
+            break
+        if isinstance(val, int):
+            kw2[k] = float(val)
+            v("maze_ctor_kwargs-retyped", maze_ctor_kwargs=kw2)
+            break
     ek = dict(spec.get("endpoint_kwargs", {}))
     ek["deadend_start"] = not ek.get("deadend_start", False)
     v("endpoint_kwargs", endpoint_kwargs=ek)
